@@ -78,6 +78,12 @@ def coq_side(ctx, P):
 
 def decide(ctx, P, t0, write_evidence, write_replay, known):
     pid = ctx.pid
+    try:
+        for f in os.listdir(REPLAYS):
+            if f.startswith(pid + "_"):
+                os.remove(os.path.join(REPLAYS, f))
+    except OSError:
+        pass
     cs = coq_side(ctx, P)
     violations = []     # list of dict(kind, replay)
     impl_cov = {}
@@ -99,11 +105,24 @@ def decide(ctx, P, t0, write_evidence, write_replay, known):
         rp = write_replay(pid, v.get("tag", "impl"), v)
         out_lines.append("VIOLATION property=%s replay=%s" % (pid, rp))
         nviol += 1
-    if failed and not violations:
-        # a proof obligation / the translator / the correspondence no longer checks and no concrete
-        # failing input was found by the search
-        rp = write_replay(pid, "unproved", {"property": pid, "no_longer_checks": failed,
-                                            "search": ir.get("search", "implementation-side monitors and correspondence found no failing input")})
+    mism = []
+    for m in ir.get("mismatches", []):
+        k = implside.match_known(pid, m, known)
+        if k:
+            if ("KNOWN-FINDING: property=%s %s" % (pid, k)) not in known_lines:
+                known_lines.append("KNOWN-FINDING: property=%s %s" % (pid, k))
+        else:
+            mism.append(m)
+    if not violations:
+        for m in mism[:3]:
+            rp = write_replay(pid, m.get("tag", "corr"), m)
+            out_lines.append("VIOLATION property=%s replay=%s no-failing-input-found" % (pid, rp))
+            nviol += 1
+            failed = failed + [{"what": "correspondence", "detail": "history %s" % m.get("history")}]
+    if cs["failed"] and not violations and not mism:
+        # a proof obligation / the translator no longer checks and no concrete failing input was found
+        rp = write_replay(pid, "unproved", {"property": pid, "no_longer_checks": cs["failed"],
+                                            "search": ir.get("search", "implementation-side monitors and the correspondence run found no failing input")})
         out_lines.append("VIOLATION property=%s replay=%s no-failing-input-found" % (pid, rp))
         nviol += 1
     nobl = len(cs["obligations"]) or 1
